@@ -795,6 +795,11 @@ impl BlobStore for ZipOffsetBlobStore {
             return Ok(None);
         }
 
+        // A compressed record does not store its original length
+        if self.config.compress_level > 0 {
+            return Ok(Some(self.get(id)?.len()));
+        }
+
         // Get record size from offset difference
         let (start_offset, end_offset) = self.offsets.get2(id as usize)?;
         let mut size = (end_offset - start_offset) as usize;
